@@ -2,7 +2,7 @@
    PARTIAL: the theorems are about the model (reference semantics L1 and chunk-stream operators L2 of Model.v);
    the repository's operators are tied to it by the black-box correspondence only (props/C08/NOTES.md). *)
 From Coq Require Import ZArith List Bool Permutation Sorted.
-From OG Require Import C08.Model C08.Proofs C08.Pipe C08.DescMerge C08.PipeProofs C08.Rpn C08.Prune.
+From OG Require Import C08.Model C08.Proofs C08.Pipe C08.DescMerge C08.PipeProofs C08.Rpn C08.Prune C08.Window.
 Import ListNotations.
 
 (* Every operator that is a state machine over rows gives the same output and final state for every cut of its
@@ -307,3 +307,21 @@ Example C08_limit_prune_example :
   limit_answer 1 (prune_repaired 10 1 [wA; wB]) = limit_answer 1 (map snd [wA; wB]) /\
   limit_answer 1 (map snd [wA; wB]) = [(50, [CVal 2])]%Z.
 Proof. split; vm_compute; reflexivity. Qed.
+
+(* the bucket function of GROUP BY time(d, off) (ProcessorOptions.Window, Go arithmetic: truncating %, corrected negative
+   remainder, clamps at MinTime / MaxTime): for EVERY t - before the epoch too - the window contains t, is d long, starts at
+   off + a multiple of d, and with off = 0 its start is the bucket of the reference semantics *)
+Theorem C08_window_spec : forall t d off, (0 < d)%Z ->
+  (min_time + d < t - off)%Z -> (t - off < max_time - d)%Z ->
+  let (s, e) := window t d off in
+  (s <= t < s + d)%Z /\ e = (s + d)%Z /\ ((s - off) mod d = 0)%Z /\ s = (off + d * ((t - off) / d))%Z.
+Proof. exact window_spec. Qed.
+Print Assumptions C08_window_spec.
+Theorem C08_window_start_is_model_bucket : forall t d, (0 < d)%Z -> (min_time + d < t)%Z -> (t < max_time - d)%Z ->
+  fst (window t d 0) = bucket d t.
+Proof. exact window_start_is_model_bucket. Qed.
+Print Assumptions C08_window_start_is_model_bucket.
+Theorem C08_window_contains : forall t d off, (0 < d)%Z -> (min_time <= t - off <= max_time)%Z ->
+  let (s, e) := window t d off in (s <= t)%Z /\ ((t < e)%Z \/ e = (max_time + off)%Z).
+Proof. exact window_contains. Qed.
+Print Assumptions C08_window_contains.
